@@ -438,6 +438,11 @@ def hook_orthogonal_complement(call, state):
         minors, piv = lin.pivots(M[ix], F)
         if s[-1] < PIV or abs(minors[-1]) < PIV ** k:
             return mon.skip("vectors dependent or span degenerate for the form")
+        # the complement is read off kernel(vectors @ form), whose rank decision
+        # uses the documented absolute tolerance 1e-8: same margin as for the
+        # kernel contract itself (ASSUMPTIONS)
+        if lin.sing(M[ix] @ F)[-1] < 1e2 * 1e-8:
+            return mon.skip("singular values of vectors@form within 1e2 of the kernel tolerance")
     cls = "%s/%s" % (nm, "batch" if batch else "unit")
     case = {"function": "orthogonal_complement", "form": F,
             "vectors": M if M.size <= 200 else M.shape, "normalize": nm}
@@ -903,6 +908,7 @@ def setup(run):
 
 SIGNATURES = [(p, n - p) for n in range(1, 7) for p in range(0, n + 1)]   # 27
 BATCHES = [(), (3,), (2, 2), (1, 2)]
+ROW_SCALES = [1.0, 1e-5, 1.0, 1e6, 1e-8]
 
 
 def _lib_exc_from(e, funcname):
@@ -979,6 +985,7 @@ def wl_frames(run, rng, idx):
         if rows is None:
             run.monitor("indefinite_orthogonalize").diag("generator found no rows in class %s" % cls)
             continue
+        rscale = ROW_SCALES[(idx // 3 + k) % len(ROW_SCALES)]
         if fkind == "integer" and cls == "bulk":
             # exact class: integer rows, kept only if still in general position
             r_int = np.round(rows * 4)
@@ -990,15 +997,25 @@ def wl_frames(run, rng, idx):
                     ok = False
             if ok:
                 rows = r_int
+                rscale = 1.0
+        # the contracts are homogeneous in the rows: the same rows at overall
+        # scale 1e-8 .. 1e6 are as much "in general position with bounded
+        # condition number" as at scale 1 (seeded change C18-r3-3: an absolute
+        # np.isclose(<v,v>, 0) guard treats small rows as lightlike)
+        rows = rows * rscale
         run.current_case = {"workload": "frames", "signature": [p, q], "k": k,
-                            "batch": list(batch), "class": cls, "form": F, "rows": rows}
-        run.note_class("frames", (p, q), k, batch, cls, fkind)
+                            "batch": list(batch), "class": cls, "form": F, "rows": rows,
+                            "row_scale": rscale}
+        run.note_class("frames", (p, q), k, batch, cls, fkind, "scale:%g" % rscale)
         utils.indefinite_orthogonalize(F, rows.copy())
         for fo in (False, True):
             utils.find_isometry(F, rows.copy(), force_oriented=fo)
         if k < n or True:
+            # (kernel's absolute rank tolerance puts tiny rows outside the
+            # domain of orthogonal_complement: unscaled rows there)
+            oc_rows = rows if rscale >= 1e-3 else rows / rscale
             for nm in ("form", "euclidean", None):
-                utils.orthogonal_complement(rows.copy(), F, normalize=nm)
+                utils.orthogonal_complement(oc_rows.copy(), F, normalize=nm)
         if not batch and k == 1:
             utils.indefinite_orthogonalize(F, rows[0].copy())            # 1-d input
             utils.find_isometry(F, rows[0].copy(), force_oriented=True)
